@@ -43,7 +43,8 @@ RULE = ('Hypothesis-generated operation sequences (<= 12 steps) x child disposit
 ASSUMPTIONS = [
     'truth about the process comes from /proc/<pid>/stat (state, ppid, start time); the harness never calls waitpid on it',
     'wait() is only generated when the child has been told to die (a blocking wait on an immortal child is documented)',
-    'delayafterterminate stays at its default 0.1 s so that a signal is always processed before liveness is re-checked',
+    'delayafterterminate stays at its default 0.1 s; a history whose failure could be a SIGKILLed child that needed longer than '
+    'that to become reapable (starved machine) is repeated once with 1.5 s before it is reported',
     'dropping the last reference must reclaim the object without the cyclic collector only in histories in which no '
     'exception was raised (an exception traceback legitimately references the object until it is collected)',
 ]
@@ -218,6 +219,9 @@ class KillWatch(object):
         return os.kill(pid, sig)
 
 
+TIMING_KEYS = ('terminate-force-failed', 'terminate-failed', 'close-raised', 'leak-after-del', 'leak-zombie', 'dead-but-running')
+
+
 def check_pty(case, col=None):
     import pexpect.pty_spawn
     import ptyprocess.ptyprocess
@@ -226,7 +230,22 @@ def check_pty(case, col=None):
     pexpect.pty_spawn.os = watch
     ptyprocess.ptyprocess.os = watch
     try:
-        _check_pty(case, col, watch)
+        try:
+            _check_pty(case, col, watch)
+        except Violation as v:
+            if v.key not in TIMING_KEYS or case.get('_grace'):
+                raise
+            # pexpect gives a child delayafterterminate (0.1 s) after each signal before it looks again; on a starved
+            # machine a SIGKILLed child can need longer to become reapable, and terminate()/close()/__del__ then give
+            # up as documented.  Before calling that a failure the same history is repeated once with a 1.5 s grace.
+            if col is not None:
+                col.count('repeated_with_longer_delayafterterminate')
+            watch2 = KillWatch()
+            pexpect.pty_spawn.os = watch2
+            ptyprocess.ptyprocess.os = watch2
+            _check_pty(dict(case, _grace=1.5), None, watch2)
+            if col is not None:
+                col.case(case, False)
     finally:
         pexpect.pty_spawn.os, ptyprocess.ptyprocess.os = saved
 
@@ -237,6 +256,9 @@ def _check_pty(case, col, watch):
     fds0 = nfds()
     child = spawn_child(disp, case['use_poll'])
     child.delaybeforesend = None
+    if case.get('_grace'):
+        child.delayafterterminate = case['_grace']
+        child.ptyproc.delayafterterminate = case['_grace']
     pid = child.pid
     proc = Proc(pid)
     watch.proc = proc
